@@ -806,9 +806,22 @@ def coq_bool_hdr(line, model_out):
 def coq_bool_lazy(line, model_out):
     t = line.split()
     b = bytes.fromhex(t[1]) if t[1] != "-" else b""
-    if len(b) > 300 or not model_out.startswith("ok "):
+    if len(b) > 300:
         return None
     ops = "[" + "; ".join("(%s, %s)" % tuple("%s%%nat" % x for x in o.split(".")) for o in (t[2].split(",") if t[2] != "-" else [])) + "]"
+    if model_out.startswith("err parse") and "step=parse" not in model_out and "put=" in model_out:
+        # a failed call: the state it leaves behind (Mp4/BoxFail.v) serialised with the calculated headers (Mp4/BoxEdit.v), evaluated inside Coq
+        f = dict(tok.split("=", 1) for tok in model_out.split() if "=" in tok)
+        if f.get("put") in (None, "?"):
+            return None
+        put = bytes.fromhex(f["put"]) if f["put"] != "-" else b""
+        return ("match parse_moov %s with Ok kids => let r := run_ops_st %s 0%%nat kids in "
+                "match snd r, puts_calc (fst r), lens_calc (fst r) with "
+                "| Some (i, _), Ok bs, Ok n => (Nat.eqb i %s%%nat) && (if list_eq_dec Byte.byte_eq_dec bs %s then true else false) && (n =? %s) "
+                "| _, _, _ => false end | _ => false end"
+                % (_coq_bytes(b), ops, f["step"], _coq_bytes(put), f["elen"]))
+    if not model_out.startswith("ok "):
+        return None
     f = _fields(model_out)
     put = bytes.fromhex(f["put"]) if f["put"] != "-" else b""
     return ("match parse_moov %s with Ok kids => let r := run_ops %s 0%%nat kids in "
